@@ -1918,6 +1918,44 @@ class Workflow(Trellis):
         matching_paths = [path for (path,) in self.db.execute(sql, (pattern,))]
         return self.declare_static_files(st, matching_paths)
 
+    def _adopt_undeclared_tree_files(self, step: Step) -> dict[str, FileHash]:
+        """Let the static trees that a recycled step brought back adopt the files used meanwhile.
+
+        While a step is detached, so are the static trees declared below it.
+        A file under such a tree that another step starts using in that period
+        gets an `UNDECLARED` node, because no attached tree owns it at that moment.
+        Declaring the tree again adopts such nodes (see `register_static_tree`),
+        but a recycled step that is skipped never declares its trees again,
+        and the step using the file would wait for it forever.
+
+        Returns
+        -------
+        to_check
+            The known hashes of the adopted files, keyed by path,
+            whose existence and validity must still be checked.
+        """
+        sql = """
+        WITH RECURSIVE sub(i) AS (
+            SELECT ?
+            UNION ALL
+            SELECT node.i FROM node JOIN sub ON node.creator = sub.i
+        )
+        SELECT node.i, node.label FROM node JOIN sub ON node.i = sub.i
+        WHERE node.kind = 'st' AND NOT node.detached
+        """
+        to_check = {}
+        for tree_i, tree_label in self.db.execute(sql, (step.i,)).fetchall():
+            clause, pattern = prefix_clause("node.label", tree_label)
+            sql = (
+                "SELECT label FROM node JOIN file ON node.i = file.node "
+                f"WHERE node.detached AND file.state = {FileState.UNDECLARED.value} AND {clause}"
+            )
+            paths = [path for (path,) in self.db.execute(sql, (pattern,))]
+            if len(paths) > 0:
+                tree = StaticTree(self, tree_i, tree_label)
+                to_check.update(self.declare_static_files(tree, paths))
+        return to_check
+
     def define_step(
         self,
         creator: Node,
@@ -2032,6 +2070,8 @@ class Workflow(Trellis):
             vol_paths=vol_paths,
         )
         if old_step is not None:
+            # The static trees below the recycled step are back without being declared again.
+            to_check = self._adopt_undeclared_tree_files(old_step)
             # Look for UNCONFIRMED inputs that match a static tree.
             # Their existence still needs to be checked,
             # ideally confirmed by a hash job submitted for them.
@@ -2039,7 +2079,8 @@ class Workflow(Trellis):
                 File(self, i, label)
                 for i, label in self.db.execute(UNCONFIRMED_INPUTS, (old_step.i,))
             }
-            return self._hashes_to_check(unconfirmed)
+            to_check.update(self._hashes_to_check(unconfirmed))
+            return to_check
 
         # Validate the new step before creating it, so that every check that names the step
         # sees the graph without the step's own declarations in it.
